@@ -165,7 +165,7 @@ def jobs(tier, seed):
     from checks import c02
 
     out = []
-    for j in c02.jobs(tier, seed):
+    for j in [j_ for j_ in c02.jobs(tier, seed) if j_["harness"] == "prog"]:
         j = dict(j)
         j["harness"] = "timing"
         j["module"] = "checks.c07"
